@@ -173,7 +173,7 @@ def _stage1_columns(rep, lp, res, key_name, iff):
         return node_text(res(e), 400).replace(' ', '')
     n_tok = n_plain = 0
     for q in ps:
-        if q.kind != 'fall':
+        if q.kind not in ('fall', 'continue'):
             continue
         tok = None
         colv = None
@@ -490,6 +490,12 @@ def rule_ag_keyord(cx, rep, port):
         parses = [c2 for c2 in ast.walk(cfd) if isinstance(c2, ast.Call) and dotted(c2.func) == 'JSON.parse']
         cmp_elems = [n for n in ast.walk(cfd) if isinstance(n, ast.Compare) and isinstance(n.left, ast.Subscript) and isinstance(n.ops[0], ast.Lt)]
         rep.decide(len(parses) >= 2 and bool(cmp_elems), 'key order', cfd, 'comparator parses the keys and compares their components', 'the comparator does not compare the parsed key components')
+        # the reference orders strings by code point: a collation-aware comparison (localeCompare, Intl.Collator) interleaves
+        # upper / lower case and reorders punctuation and non-ASCII letters, so rows come out in another order (and TOP keeps others)
+        coll = [c2 for c2 in ast.walk(cfd) if isinstance(c2, ast.Call) and ((isinstance(c2.func, ast.Attribute) and c2.func.attr in ('localeCompare', 'compare') ) or (dotted(c2.func) or '').endswith('Collator'))]
+        if coll:
+            rep.violated('key collation', coll[0], 'group keys are compared with `{}`: locale collation is not the code-point order of the reference ("B" < "a" there), so groups are emitted in a different order'.format(node_text(coll[0], 60)))
+            return
         desc = [n for n in ast.walk(cfd) if isinstance(n, ast.IfExp) and isinstance(n.body, ast.Constant) and isinstance(n.orelse, ast.Constant)]
         rep.decide(bool(desc) and all(d.body.value == -1 and d.orelse.value == 1 for d in desc), 'key direction', cfd, 'ascending', 'group keys are not in ascending order')
 
